@@ -333,7 +333,7 @@ arr_list
     :
         { $$ = 0 }
     | arr_list '[' ']'
-        { $$++ }
+        { $$ = nextArrayDim($1) }
     ;
 
 in_param_list
